@@ -536,7 +536,7 @@ func HarnessC12Limit() {
 	ctx := context.Background()
 	// model (DESIGN A.4)
 	var admitted []int
-	var sums [5]int64
+	var sums, prev [5]int64
 	var counts [5]uint64
 	var total int64
 	var nmeas uint64
@@ -548,7 +548,7 @@ func HarnessC12Limit() {
 		var dest metricdata.Aggregation
 		c(&dest)
 		var got [5]bool
-		var gsum int64
+		var gsum, gprev int64
 		var gcount uint64
 		npts := 0
 		switch kind {
@@ -577,13 +577,16 @@ func HarnessC12Limit() {
 				if pts[i].present {
 					vndAssert(pts[i].n == 1, "limit-one-point-per-set")
 					if kind != 2 {
-						vndAssert(pts[i].value == sums[i], "limit-point-sum-per-set")
+						// a delta precomputed sum reports the observed value minus the
+						// value observed for that set in the preceding cycle
+						vndAssert(pts[i].value == sums[i]-prev[i], "limit-point-sum-per-set")
 						gsum += pts[i].value
+						gprev += prev[i]
 					}
 				}
 			}
 			if kind != 2 {
-				vndAssert(gsum == total, "limit-total-sum-conserved")
+				vndAssert(gsum == total-gprev, "limit-total-sum-conserved")
 			}
 		}
 		if limit > 0 {
@@ -600,6 +603,9 @@ func HarnessC12Limit() {
 		}
 		vndAssert(npts == len(admitted), "limit-point-count-equals-model")
 		if clearsOnCollect {
+			if kind == 3 && delta {
+				prev = sums // sets not observed in this cycle start from zero again
+			}
 			admitted = nil
 			sums, counts, total, nmeas = [5]int64{}, [5]uint64{}, 0, 0
 		}
